@@ -16,7 +16,8 @@ import time
 
 from .. import projects
 from ..cli import run_cli
-from ..core import HarnessError, R, explore, finish
+from ..core import HarnessError, R, explore, finish, fresh_dir
+from ..fstree import materialise
 from ..envctl import FaultPlan, faulty_open
 from ..refmodel import inventory as inv
 from .c01 import build
@@ -31,7 +32,35 @@ def bounds(tier, seed):
             "spellings": ["relative-to-root", "relative-to-subdir", "absolute", "dotdot"]}
 
 
+DEP5 = "Format: https://www.debian.org/doc/packaging-manuals/copyright-format/1.0/\nUpstream-Name: x\n\n"
+HDR = "# SPDX-FileCopyrightText: 2020 Jane\n# SPDX-License-Identifier: MIT\n"
+# stand-alone trees outside the defect lattice (no verdict model needed: C13's oracle is the agreement of the formats)
+EXTRAS = {
+    # the synopsis of a paragraph is parsed only when a file matches it: that file cannot be reported on
+    "dep5-unparseable-paragraph": {
+        "recipe": {".reuse/dep5": DEP5 + "Files: src/ok.py\nCopyright: 2020 Jane\nLicense: MIT\n\nFiles: src/broken.py docs/*\nCopyright: 2020 Jane\nLicense: MIT OR\n",
+                   "src/ok.py": "x = 1\n", "src/broken.py": "y = 1\n", "docs/also.md": "doc\n", "src/own.py": HDR, "LICENSES/MIT.txt": "mit\n", "LICENSE": "text\n"},
+        "roles": {"h": "src/ok.py", "f": "src/broken.py", "g": "docs/also.md", "k": "src/own.py"}, "licenses": ["LICENSES/MIT.txt"]},
+    "toml-odd-values": {
+        "recipe": {"REUSE.toml": 'version = 1\n\n[[annotations]]\npath = ["src/**", "docs/*"]\nprecedence = "aggregate"\nSPDX-FileCopyrightText = ["", "2020 Jane"]\nSPDX-License-Identifier = ["MIT", "MIT"]\n',
+                   "src/ok.py": "x = 1\n", "src/broken.py": "# SPDX-License-Identifier: Nope-1.0\n", "docs/also.md": "doc\n", "src/own.py": HDR, "LICENSES/MIT.txt": "mit\n", "LICENSE": "text\n"},
+        "roles": {"h": "src/ok.py", "f": "src/broken.py", "g": "docs/also.md", "k": "src/own.py"}, "licenses": ["LICENSES/MIT.txt"]},
+}
+
+
+def build13(case, dirname):
+    if "extra" not in case:
+        return build(case, dirname)
+    e = EXTRAS[case["extra"]]
+    root = fresh_dir(dirname)
+    materialise(root, e["recipe"])
+    return {"name": case["extra"], "roles": e["roles"], "licenses": e["licenses"]}, [], root, set()
+
+
 def cases(tier, seed):
+    for name in EXTRAS:
+        yield {"mode": "formats", "extra": name, "defects": []}
+        yield {"mode": "lintfile", "extra": name, "defects": []}
     nf = 2 if tier == "quick" else 3
     nl = 1 if tier == "quick" else 2
     for b in range(len(projects.BASES)):
@@ -146,7 +175,7 @@ def from_lines(text, root, base=None):
 
 def ev_formats(case) -> R:
     r = R()
-    proj, unreadable, root, bad = build(case, "c13")
+    proj, unreadable, root, bad = build13(case, "c13")
     label = "+".join(case["defects"]) or "none"
     res = {}
     for fmt in ("--json", "--plain", "--lines", "--quiet", None):
@@ -216,7 +245,7 @@ def ev_formats(case) -> R:
 
 def ev_lintfile(case) -> R:
     r = R()
-    proj, unreadable, root, bad = build(case, "c13")
+    proj, unreadable, root, bad = build13(case, "c13")
     label = "+".join(case["defects"]) or "none"
     roles = proj["roles"]
     plan = FaultPlan(lambda p: p in bad)
